@@ -117,6 +117,8 @@ CHECKS["C15"] = {
     "parts": [
         {"engine": "P", "pkg": "internal/limiter", "tests": [
             {"run": "TestVfC15Limiter", "quick": 30000, "thorough": 2000000, "shards_quick": 6, "shards_thorough": 16, "timeout_thorough": 3000},
+            {"run": "TestVfC15Concurrent", "quick": 400, "thorough": 20000, "shards_quick": 2, "shards_thorough": 8},
+            {"run": "TestVfC15GcKeepsLive", "quick": 0, "thorough": 2, "shards_thorough": 2},
         ]},
         {"engine": "E", "proxy": ["plain"], "tests": [
             {"run": "TestVfC15Listeners", "quick": 96, "thorough": 2400, "shards_quick": 8, "shards_thorough": 16, "timeout_thorough": 3400},
